@@ -68,6 +68,17 @@ def stable(ctx, pw, cred=b"alice"):
         if c2 != cred:
             e2 = reg_with_tape(pw, c2, t_reg, t_fin)
             ctx.expect(e2 is None or e2 != base_ek, "another credential identifier (%d bytes) yields a different export key even on the same tape" % len(c2))
+    # servers whose static key is supplied by the operator (`new_with_key`, external key holder) have their own seed too
+    NO = "~"
+    ext = []
+    for j in range(2):
+        t_ = ctx.tape(L.Nh + L.Nsk + 8)
+        r_ = ctx.call("ext_setup", t_, f.setup[L.Nh:L.Nh + L.Nsk], 0, model_args=[t_, f.setup[L.Nh:L.Nh + L.Nsk], NO, NO], impl_extra=1)
+        if ctx.expect(r_.ok, "setup with a supplied key"):
+            ext.append(r_.b(0))
+    if len(ext) == 2:
+        ctx.expect(ext[0][:L.Nh] != ext[1][:L.Nh] and any(ext[0][:L.Nh]), "setups with a supplied key draw their own OPRF seed")
+        others["another server with the same supplied static key"] = honest_flow(ctx, pw, cred, registration_only=True, count=True, setup=ext[0])
     for what, g in others.items():
         ctx.expect(g.ok and g.export_reg != ek, "%s yields a different export key" % what)
         public += [g.upload, g.reg_response]
@@ -147,6 +158,6 @@ def cases(tier, seed):
            (b"short", b"a" * 255), (b"P" * 64, b""), (b"", b"alice")]
     for si, s in enumerate(suites_for(tier, seed)):
         for k, (pw, cred) in enumerate(pws if tier == "thorough" else pws[:2]):
-            out.append(dict(script=stable, suite=s, seed=seed * 10000 + si * 10 + k, mode="pattern", params=dict(pw=pw, cred=cred)))
+            out.append(dict(cross=["srv_reg_start", "login_finish", "srv_login_finish"], cross_limit=40, script=stable, suite=s, seed=seed * 10000 + si * 10 + k, mode="pattern", params=dict(pw=pw, cred=cred)))
         out.append(dict(script=in_memory, suite=s, seed=seed * 10000 + si * 10 + 8, mode="pattern", params=dict(pw=b"a sixteen byte password", cred=b"alice")))
     return out
